@@ -32,7 +32,7 @@ package autodiff
 //@   ensures forall t *AvlTree, k int :: t != nil && !fresh(t) ==> (member(t.Root, k) <==> old(member(t.Root, k)))
 //@   modifies AvlNode.Left, AvlNode.Right, AvlNode.Value, AvlNode.Balance, AvlNode.Parent, AvlNode.Deleted
 
-//@ for $V,$S,$F in (SparseFloat64Vector,Float64,float64)
+//@ for $V,$S,$F in (SparseFloat64Vector,Float64,float64), (SparseFloat32Vector,Float32,float32), (SparseIntVector,Int,int)
 //@ spec RI_$V(v *$V) bool =
 //@   v != nil && v.n >= 0 && v.values != nil &&
 //@   (forall k int :: has(v.values, k) <==> member(v.Root, k)) &&
